@@ -49,6 +49,9 @@ class Knobs:
         elif self.flavour == "errors":
             self.p_fallible_comp = 0.6
             self.p_fallible_ctor = 0.4
+        elif self.flavour == "ownership":
+            self.p_fallible_ctor = 0.45
+            self.n_mws = (3, 6)
         elif self.flavour == "routing":
             # deep nesting, a fallback in (almost) every blueprint that may have one, many routes, few middlewares
             self.n_handlers = (7, 11)
@@ -72,7 +75,8 @@ def mode_for(rng, spec, t, consumer_kind, state):
     if d == "shared":
         return "ref"
     if d in ("copy", "cloneable", "free"):
-        if state.get("avoid_known") and d == "cloneable" and consumer_kind != "handler" and consumer_kind != "ctor:singleton":
+        if state.get("avoid_known") and d == "cloneable" and consumer_kind != "handler" and consumer_kind != "ctor:singleton" \
+                and not (state.get("single_stage") and not (ty["lc"] == "singleton" and consumer_kind.startswith("ctor:"))):
             # known findings (ordering fixpoint stuck / E0505 when a clone-if-necessary value is moved in a stage that also
             # lends it to the Next state): exercised by dedicated regression cases instead
             return "ref"
@@ -113,7 +117,9 @@ def gen_inclass(rng, knobs=None):
     kn = knobs or Knobs()
     spec = {"types": {}, "errors": [], "ctors": {}, "ehs": {}, "obs": {}, "mws": {}, "handlers": {}, "fallbacks": {},
             "bp": {"items": []}, "mode": "inclass"}
-    state = {"moved_owner": {}, "avoid_known": kn.avoid_known}
+    # "ownership" flavour: no wrapping middleware => one pipeline stage => the known E0505 (value moved in a stage that also
+    # lends it to the Next state) cannot arise, so clone-if-necessary values may be taken by value by anybody
+    state = {"moved_owner": {}, "avoid_known": kn.avoid_known, "single_stage": kn.flavour == "ownership"}
     n_err = rint(rng, kn.n_errors)
     spec["errors"] = ["E%d" % i for i in range(n_err)]
 
@@ -127,7 +133,7 @@ def gen_inclass(rng, knobs=None):
         if lc == "singleton":
             disc = rng.choices(["shared", "cloneable", "copy", "moved"], [6, 2, 1, 1])[0]
         elif lc == "request":
-            disc = rng.choices(["shared", "cloneable", "copy", "moved"], [5, 3, 1, 2])[0]
+            disc = rng.choices(["shared", "cloneable", "copy", "moved"], [2, 6, 1, 1] if kn.flavour == "ownership" else [5, 3, 1, 2])[0]
         else:
             disc = "free"
         ty = {"lc": lc, "disc": disc}
@@ -190,7 +196,8 @@ def gen_inclass(rng, knobs=None):
         if rng.random() < 0.7:
             ehid = "EH_%s" % e
             cands = [t for t in names if infallible[t] and spec["types"][t]["disc"] != "moved"]
-            ins = [(t, "ref") for t in rng.sample(cands, min(len(cands), rng.choice([0, 0, 1, 2])))]
+            ins = [(t, "val" if (kn.flavour == "ownership" and spec["types"][t]["disc"] == "cloneable" and rng.random() < 0.6) else "ref")
+                   for t in rng.sample(cands, min(len(cands), rng.choice([0, 0, 1, 2] if kn.flavour != "ownership" else [1, 2, 2])))]
             spec["ehs"][ehid] = {"err": e, "ins": ins, "status": status}
             status += 1
     if rng.random() < 0.5:
@@ -220,7 +227,7 @@ def gen_inclass(rng, knobs=None):
         return hid
 
     def new_mw(avail_types, kind=None):
-        kind = kind or rng.choice(["pre", "post", "wrap"])
+        kind = kind or rng.choice(["pre", "post"] if kn.flavour == "ownership" else ["pre", "post", "wrap"])
         mid = "%s%d" % ({"pre": "PRE", "post": "POST", "wrap": "W"}[kind], counters["m"])
         counters["m"] += 1
         ins = pick_inputs("mw", list(avail_types), rng.choice([0, 1, 1, 2, 3]), allow_fallible=kn.flavour != "observers")
